@@ -40,6 +40,45 @@ def trace_validate(module, records, cfg="SPECIFICATION TSpec\nCHECK_DEADLOCK FAL
   return v, t
 
 
+def _singleton_proof(run):
+  """any number of threads: SingletonProof.tla states an inductive invariant of the locked protocol and proves (TLAPS) that it implies
+  OneInstance and SameForAll.  TLC checks that the invariant holds on the 2- and 3-thread instances (so the proof does not rest on
+  an invariant that is false); tlapm re-checks the proof.  A missing or timed-out prover is noted, a failed obligation is a failure
+  of the machinery (the specification, not the code, would be wrong)."""
+  import shutil, subprocess, re
+  for threads in (['"t1"', '"t2"'], ['"t1"', '"t2"', '"t3"']):
+    cfg = "SPECIFICATION Spec\nCONSTANTS Threads = {%s}\nVariant = \"locked\"\nINVARIANT Inv\n" % ", ".join(threads)
+    r = tlc.run("SingletonInv.tla", cfg, workers=4, timeout=600)
+    tlc.need_ok(r, "SingletonProof")
+    if r.violated:
+      raise common.MachineryError("the inductive invariant of SingletonProof.tla is violated on %d threads: %s" % (len(threads), r.violated))
+  exe = shutil.which("tlapm")
+  if exe is None:
+    run.add(tlc_runs=["SingletonProof: Inv holds on 2 and 3 threads (TLC); tlapm not found, the proof was not re-checked in this run"])
+    return
+  wd = os.path.join(common.work_dir(), "tlaps_%d" % os.getpid())
+  os.makedirs(wd, exist_ok=True)
+  for f in ("Singleton.tla", "SingletonInv.tla", "SingletonProof.tla"):
+    shutil.copy(os.path.join(common.VERIF, "spec", f), wd)
+  try:
+    out = subprocess.run([exe, "--threads", "8", "SingletonProof.tla"], cwd=wd, capture_output=True, text=True, timeout=900)
+    text = out.stdout + out.stderr
+  except subprocess.TimeoutExpired:
+    run.add(tlc_runs=["SingletonProof: Inv holds on 2 and 3 threads (TLC); tlapm timed out, the proof was not re-checked in this run"])
+    return
+  finally:
+    shutil.rmtree(os.path.join(wd, ".tlacache"), ignore_errors=True)
+  m = re.search(r"All (\d+) obligations? proved", text)
+  if m:
+    run.add(tlc_runs=["SingletonProof: TLAPS proved all %s obligations of Spec => [](OneInstance /\\ SameForAll) for any set of threads "
+                      "(inductive invariant Inv, also checked by TLC on 2 and 3 threads)" % m.group(1)],
+            proof_obligations_proved=int(m.group(1)))
+  elif re.search(r"obligations? failed|\bfailed\b", text):
+    raise common.MachineryError("tlapm could not prove SingletonProof.tla:\n" + text[-1500:])
+  else:
+    run.add(tlc_runs=["SingletonProof: Inv holds on 2 and 3 threads (TLC); tlapm gave no verdict (%s), the proof was not re-checked in this run" % text[-200:].strip()])
+
+
 def c30(tier):
   run = common.Run("C30", tier, "model_checking")
   run.assumptions += ASSUME_B + ["pre-emption points: every source line of miros/singleton.py, every read/write of the decorator's instance slot, "
@@ -55,6 +94,7 @@ def c30(tier):
       raise common.MachineryError("Singleton.tla (locked) violates %s" % r.violated)
     run.add(states=r.distinct, transitions=r.generated,
             tlc_runs=["Singleton %d threads, locked: %d distinct states (no deadlock); OneInstance, SameForAll hold" % (len(threads), r.distinct)])
+  _singleton_proof(run)
   jobs = [(k, 2, 3 if tier == "quick" else 5, 2500 if tier == "quick" else 40000) for k in KLASSES] + \
          [(k, 3, 2 if tier == "quick" else 3, 1500 if tier == "quick" else 20000) for k in KLASSES]
   with mp.get_context("fork").Pool(12) as pool:
